@@ -197,11 +197,12 @@ Theorem client_accept_sound known C v data d :
   exists own sh, assoc C v = Some own /\ known_shape known v = Some sh /\
                  decode sh data = Some d /\ vd_magic d = vd_magic own.
 Proof.
-  unfold client_accept. destruct (assoc C v) as [own|]; [|discriminate].
-  destruct (known_shape known v) as [sh|]; [|discriminate].
-  destruct (decode sh data) as [d'|]; [|discriminate].
+  unfold client_accept. destruct (assoc C v) as [own|] eqn:A; [|discriminate].
+  destruct (known_shape known v) as [sh|] eqn:K; [|discriminate].
+  destruct (decode sh data) as [d'|] eqn:D; [|discriminate].
   destruct (vd_magic d' =? vd_magic own) eqn:E; [|discriminate].
-  intros H. inversion H; subst. exists own, sh. repeat split; auto. lia.
+  intros H. inversion H; subst. exists own, sh.
+  split; [reflexivity|]. split; [reflexivity|]. split; [exact D|]. apply N.eqb_eq. exact E.
 Qed.
 
 Lemma client_accept_class known C v data :
@@ -224,3 +225,27 @@ Proof.
   pose proof (decode_any_magic _ _ _ (HvC v cd (assoc_Some_In _ _ _ Ec)) D) as Em'.
   replace (vd_magic sd =? vd_magic cd) with true by lia. reflexivity.
 Qed.
+
+(* ---- consequences used by the property theorems ------------------------------ *)
+Lemma propose_In C v b : In (v, b) (propose C) -> exists d, In (v, d) C /\ b = vd_enc d.
+Proof.
+  unfold propose. rewrite in_map_iff. intros ([v' d] & E & Hin). cbn [fst snd] in E.
+  inversion E; subst. eauto.
+Qed.
+
+Lemma wants_query_consistent known C : consistent known C ->
+  (wants_query known (propose C) = true <-> exists v d, In (v, d) C /\ vd_query d = true).
+Proof.
+  intros Hc. rewrite wants_query_spec. split.
+  - intros (v & b & sh & d & Hin & K & D & Q). destruct (propose_In _ _ _ Hin) as (d0 & Hin0 & ->).
+    destruct (Hc v d0 Hin0) as [K0 V0]. rewrite K in K0. inversion K0; subst sh.
+    rewrite <- (app_nil_r (vd_enc d0)) in D. rewrite decode_enc in D by exact V0. inversion D; subst.
+    eauto.
+  - intros (v & d & Hin & Q). destruct (Hc v d Hin) as [K V].
+    exists v, (vd_enc d), (shape_of d), d. repeat split; auto.
+    + unfold propose. apply in_map_iff. exists (v, d). auto.
+    + rewrite <- (app_nil_r (vd_enc d)). apply decode_enc. exact V.
+Qed.
+
+Lemma no_common_not_max S C v : no_common S C -> is_max_common v S C -> False.
+Proof. intros H (a & b & _). exact (H v a b). Qed.
